@@ -165,6 +165,9 @@ def run_dialects(ctx, rng, rounds=1):
             ctx.disagree("diff.cmptype_g", inp, impl_out, model_out, "compare_type / tokenisation differs from the model with this dialect's synonym groups")
         else:
             ctx.trace_ok()
+        if m.get("same") and real:
+            ctx.fail(inp, "spurious-type-synonym: on dialect %s %s vs %s is reported as a type change although a synonym group (or the same type name) joins them and their arguments are compatible"
+                     % (dialect, itxt, mtxt), impl=impl_out, tags=["dialect:" + dialect, "type-synonym"])
         cross = fi != fm
         if cross:
             ctx.hist("dialect.cross", "%s:%s" % (dialect, "must-differ" if m["must"] else "joined-by-group-or-same-token"))
